@@ -15,7 +15,7 @@ def corpus_cases(pid):
                 if ln and not ln.startswith('#'): out.append(ln)
     return out
 
-HARNESS_OF_CLASS = {'D': 'classes', 'U': 'classes', 'DM': 'multi', 'UM': 'multi', 'DW': 'multi', 'UW': 'multi'}
+HARNESS_OF_CLASS = {'CONC': 'conc', 'D': 'classes', 'U': 'classes', 'DM': 'multi', 'UM': 'multi', 'DW': 'multi', 'UW': 'multi'}
 def default_route(case):
     return HARNESS_OF_CLASS.get(case.split(None, 1)[0])
 
@@ -23,14 +23,22 @@ class Session:
     """Harness binaries + the driver; evaluates batches of cases (each case goes to the harness that knows its class)."""
     def __init__(self, P, pid, exes):
         self.P, self.pid, self.exes = P, pid, exes
-    def evaluate(self, cases):
+    def run_only(self, cases):
         impl, aborts = {}, {}
         names = list(self.exes)
+        from concurrent.futures import ThreadPoolExecutor
+        jobs = []
         for name in names:
             sub = [c for c in cases if len(names) == 1 or (self.P.get('route') or default_route)(c) == name]
             if not sub: continue
-            i2, a2 = run_impl(self.exes[name], sub, timeout=self.P.get('impl_timeout', 900))
-            impl.update(i2); aborts.update(a2)
+            k = max(1, min(self.P.get('shards', 1), len(sub) // 50))
+            for j in range(k): jobs.append((name, sub[j::k]))
+        with ThreadPoolExecutor(max_workers=8) as ex:
+            for i2, a2 in ex.map(lambda nb: run_impl(self.exes[nb[0]], nb[1], timeout=self.P.get('impl_timeout', 900), wrap=self.P.get('wrap')), jobs):
+                impl.update(i2); aborts.update(a2)
+        return impl, aborts
+    def evaluate(self, cases):
+        impl, aborts = self.run_only(cases)
         ms, rc, err = run_driver(impl, cases, self.P.get('driver_args'))
         verdicts = {}
         segs = self.P.get('segments')
@@ -53,6 +61,10 @@ def run_property(pid, P, tier, seed):
     theorems, discharged, assum, plog = check_obligations(pid)
     forb = forbidden_scan()
     proof_broken = None
+    chk = None
+    if tier == 'thorough' and theorems and len(discharged) == len(theorems):
+        ok, summ = coqchk(pid); chk = summ
+        if not ok: proof_broken = 'coqchk rejects the compiled development: ' + summ[-600:]
     if not theorems: proof_broken = 'no theorem found for %s' % pid
     elif len(discharged) != len(theorems): proof_broken = 'theorem %s (coqc rejects Properties_%s.v): %s' % (assum.get('_broken'), pid, plog[-600:])
     elif forb: proof_broken = 'forbidden construct in the development: ' + '; '.join(forb[:5])
@@ -79,10 +91,32 @@ def run_property(pid, P, tier, seed):
     for c in corp + gen:
         if c not in seen: seen.add(c); cases.append(c)
     impl, ms, aborts, verdicts, drv = S.evaluate(cases)
+    adaptive_log = {}
+    if P.get('adaptive'):
+        # change-directed search: new cases chosen by looking at what the implementation does (all of them are then judged like the others)
+        more = [c for c in P['adaptive'](S.run_only, rng, tier, adaptive_log) if c not in seen]
+        if more:
+            i2, m2, a2, v2, d2 = S.evaluate(more)
+            impl.update(i2); ms.update(m2); aborts.update(a2); verdicts.update(v2); cases += more; seen.update(more)
+            if d2[0] != 0: drv = d2
     prop_fail = [c for c in cases if not verdicts[c][1]]
     corr_fail = [c for c in cases if not verdicts[c][0]]
     if drv[0] != 0:
         proof_broken = proof_broken or ('driver failed: ' + drv[1])
+    # ---- 3b. build matrix (C17): the same cases under other compilers / optimisation levels / checked standard library; every
+    # configuration must terminate normally on every case and print exactly what the base configuration printed
+    matrix_fail = []; matrix_cov = []
+    for cfg in P.get('matrix', lambda tier: [])(tier):
+        with ThreadPoolExecutor(max_workers=4) as ex:
+            built2 = list(ex.map(lambda h: build_harness(h, bdir, flags=cfg['flags'], tag='_' + cfg['tag']), hnames))
+        if any(b[0] is None for b in built2):
+            proof_broken = proof_broken or ('harness does not compile in configuration %s: %s' % (cfg['tag'], ' '.join(b[1] for b in built2 if b[0] is None)[-500:])); continue
+        sub = cases if not cfg.get('sample') else cases[:len(corp)] + random.Random(seed).sample(cases[len(corp):], min(cfg['sample'], len(cases) - len(corp)))
+        S2 = Session(dict(P, wrap=cfg.get('wrap')), pid, {h: b[0] for h, b in zip(hnames, built2)})
+        impl2, aborts2 = S2.run_only(sub)
+        bad = [c for c in sub if c in aborts2 or impl2.get(c) != impl.get(c)]
+        matrix_cov.append({'configuration': cfg['tag'], 'flags': ' '.join(cfg['flags']), 'wrapper': ' '.join(cfg.get('wrap') or []), 'cases': len(sub), 'aborts': len(aborts2), 'diverging': len(bad)})
+        for c in bad[:3]: matrix_fail.append((c, cfg, impl2.get(c), aborts2.get(c)))
     # ---- 4. in-kernel cross-check of the extracted model on a sample
     kc_n = kc_bad = 0; kc_msg = ''
     if P.get('coq_term') and drv_ok:
@@ -119,6 +153,13 @@ def run_property(pid, P, tier, seed):
                                 'differs_at': diff_positions(detail[2], detail[3]) if detail else None,
                                 'seed': seed, 'tier': tier, 'harness': P['harness'], 'flags': ' '.join(P.get('flags') or CXX_QUICK)})
         lines.append('VIOLATION property=%s replay=%s' % (pid, rp)); violations += 1
+    for c, cfg, out2, ab2 in matrix_fail[:P.get('max_report', 6)]:
+        if c in reported: continue
+        reported.add(c)
+        rp = write_replay(pid, {'property': pid, 'kind': 'failing-input', 'case': c, 'configuration': cfg['tag'], 'flags': ' '.join(cfg['flags']), 'wrapper': cfg.get('wrap'),
+                                'what': 'this build configuration aborts on the case or prints something else than the base configuration (ASan+UBSan, g++ -O1)',
+                                'implementation_this_configuration': out2, 'implementation_base': impl.get(c), 'abort': ab2, 'seed': seed, 'tier': tier})
+        lines.append('VIOLATION property=%s replay=%s' % (pid, rp)); violations += 1
     only_corr = [c for c in corr_fail if c not in prop_fail]
     if only_corr and not violations:
         # implementation left the model's behaviours but the spec oracle has no complaint on these cases: widen the search
@@ -154,12 +195,15 @@ def run_property(pid, P, tier, seed):
            'corpus_cases': len(corp), 'correspondence_mismatches': len(corr_fail), 'spec_oracle_failures': len(prop_fail),
            'implementation_aborts': len(aborts), 'kernel_crosscheck': {'cases_evaluated_with_vm_compute': kc_n, 'disagreements': kc_bad},
            'input_distribution': P['histogram'](cases) if P.get('histogram') else {}}
+    if matrix_cov: cov['build_matrix'] = matrix_cov
+    if chk: cov['coqchk'] = chk
+    if adaptive_log: cov['directed_search'] = adaptive_log
     finish(pid, P, tier, seed, t0, theorems, discharged, assum, cov, violations, lines)
     return 1 if violations else 0
 
 def finish(pid, P, tier, seed, t0, theorems, discharged, assum, cov, violations, lines, extra=None):
     tb = ['Coq 8.16.1 kernel (coqc, full .vo build; vm_compute used, native_compute not used)',
-          'extraction: ExtrOcamlBasic only (Extract Inductive bool/option/unit/list/prod/sumbool/sumor, inlined fst/snd/andb/orb/negb); nat/positive/Z stay inductive; no Extract Constant of ours',
+          'extraction: ExtrOcamlBasic only (Extract Inductive bool/option/unit/list/prod/sumbool/sumor, Extract Inlined Constant andb/orb); nat/positive/Z stay inductive; no Extract Constant of ours',
           'OCaml driver (parsing/printing glue), cross-checked in-kernel on a sample each run',
           'C++ harness harness/impl_%s.cpp + generators + comparison (lib/, gen/)' % (P['harness'],),
           'g++ 12 / libstdc++ / ASan+UBSan as installed']
